@@ -17,6 +17,7 @@ import (
 	"pgregory.net/rapid"
 
 	"verif/internal/hx"
+	"verif/internal/onedref"
 )
 
 // ------------------------------------------------------------ RecordPattern
@@ -562,6 +563,179 @@ func checkStart(raw json.RawMessage) error {
 	return nil
 }
 
+// DigitRow: a valid EAN-13 / EAN-8 symbol at some scale in which the three inner edges of ONE digit
+// are moved by a few pixels (its outer edges, and so every other digit, stay put). If the lowest
+// reference score over the templates that position may use (L and G in the left half of EAN-13, L
+// otherwise) is still uniquely that digit's own template and below the limit, every digit of the
+// symbol decodes to itself and the reader must return the number.
+type DigitRow struct {
+	Sym    string `json:"sym"` // EAN13 | EAN8
+	Digits string `json:"digits"`
+	Scale  int    `json:"scale"`
+	Pos    int    `json:"pos"`   // index among the encoded digits (EAN-13: 0..11, EAN-8: 0..7)
+	Shift  [3]int `json:"shift"` // pixels by which inner edge j moves to the right
+}
+
+func checkDigitRow(raw json.RawMessage) error {
+	var c DigitRow
+	if err := json.Unmarshal(raw, &c); err != nil {
+		return fmt.Errorf("hx: %v", err)
+	}
+	var mod string
+	var err error
+	half := 6
+	if c.Sym == "EAN8" {
+		mod, err = onedref.EAN8Modules(c.Digits)
+		half = 4
+	} else {
+		mod, err = onedref.EAN13Modules(c.Digits)
+	}
+	if err != nil || !onedref.ValidCheck(c.Digits) || c.Scale < 1 || c.Pos < 0 || c.Pos >= 2*half {
+		return fmt.Errorf("hx: bad digit row case")
+	}
+	start := 3 + 7*c.Pos
+	if c.Pos >= half {
+		start += 5
+	}
+	// the digit's four runs, in pixels
+	_, lens := runs(mod[start : start+7])
+	if len(lens) != 4 {
+		return fmt.Errorf("hx: digit does not have four runs")
+	}
+	px := make([]int, 4)
+	for i := range px {
+		px[i] = lens[i] * c.Scale
+	}
+	for j := 0; j < 3; j++ {
+		px[j] += c.Shift[j]
+		px[j+1] -= c.Shift[j]
+	}
+	for _, v := range px {
+		if v < 1 {
+			return nil // the shift swallows a run: not a distorted digit any more
+		}
+	}
+	pt := oned.VerifPatternTables()
+	lim := oned.VerifBestMatchLimits()["upcean"]
+	rows := pt["upcean_l"]
+	encoded := c.Digits
+	if c.Sym != "EAN8" {
+		encoded = c.Digits[1:]
+	}
+	want := int(encoded[c.Pos] - '0')
+	if c.Sym != "EAN8" && c.Pos < half {
+		rows = pt["upcean_l_and_g"]
+		// the template the reference symbol uses at this position: L (index digit) or G (index digit+10)
+		_, l0 := runs(mod[start : start+7])
+		for idx, tpl := range rows {
+			if idx%10 == want && tpl[0] == l0[0] && tpl[1] == l0[1] && tpl[2] == l0[2] && tpl[3] == l0[3] {
+				want = idx
+				break
+			}
+		}
+	}
+	o := bestRef(px, rows, lim[0], lim[1])
+	if o.skip != "" || !o.found || o.index != want {
+		return nil // the distorted digit is not (uniquely) its own best match any more: nothing is promised
+	}
+	// pixel row
+	var sb strings.Builder
+	sb.WriteString(strings.Repeat("0", 12*c.Scale))
+	for i := 0; i < len(mod); i++ {
+		if i == start {
+			col := mod[start]
+			for _, v := range px {
+				sb.WriteString(strings.Repeat(string(col), v))
+				col ^= 1
+			}
+			i += 6
+			continue
+		}
+		sb.WriteString(strings.Repeat(string(mod[i]), c.Scale))
+	}
+	sb.WriteString(strings.Repeat("0", 12*c.Scale))
+	row := sb.String()
+	bm, _ := gozxing.NewBitMatrix(len(row), 6)
+	for x := 0; x < len(row); x++ {
+		if row[x] == '1' {
+			for y := 0; y < 6; y++ {
+				bm.Set(x, y)
+			}
+		}
+	}
+	bmp, _ := gozxing.NewBinaryBitmapFromImage(bm)
+	var rd gozxing.Reader = oned.NewEAN13Reader()
+	if c.Sym == "EAN8" {
+		rd = oned.NewEAN8Reader()
+	}
+	res, derr := rd.Decode(bmp, nil)
+	desc := fmt.Sprintf("%s %s at %d px per module, digit %d distorted to runs %v (reference score %.4f against its own template, the lowest)", c.Sym, c.Digits, c.Scale, c.Pos, px, o.score)
+	if derr != nil {
+		return fmt.Errorf("not read (%v) although every digit's own template is its unique best match below the limit [%s]", derr, desc)
+	}
+	if res.GetText() != c.Digits {
+		return fmt.Errorf("read as %q [%s]", res.GetText(), desc)
+	}
+	return nil
+}
+
+// GuardCase: the ITF guard search from the first bar of a row. Model: slide over windows of
+// len(pattern) runs that begin with a bar (a window counts once the next run has begun); the first
+// whose reference score against the pattern is below the ITF maximum average variance is {start, end}.
+type GuardCase struct {
+	Row     string `json:"row"`
+	Pattern []int  `json:"pattern"`
+}
+
+func checkGuard(raw json.RawMessage) error {
+	var c GuardCase
+	if err := json.Unmarshal(raw, &c); err != nil {
+		return fmt.Errorf("hx: %v", err)
+	}
+	lim := oned.VerifBestMatchLimits()["itf"]
+	starts, lens := runs(c.Row)
+	first := 0
+	if len(c.Row) > 0 && c.Row[0] == '0' {
+		first = 1
+	}
+	if first >= len(starts) {
+		return nil
+	}
+	n := len(c.Pattern)
+	found, ws, we := false, 0, 0
+	for k := first; k+n < len(lens); k += 2 {
+		o := bestRef(lens[k:k+n], [][]int{c.Pattern}, lim[0], lim[1])
+		if o.skip != "" {
+			return nil
+		}
+		if o.found {
+			found, ws, we = true, starts[k], starts[k+n]
+			break
+		}
+	}
+	got, err := oned.VerifITFFindGuardPattern(rowOf(c.Row), starts[first], append([]int(nil), c.Pattern...))
+	desc := fmt.Sprintf("pattern %v, row %s", c.Pattern, c.Row)
+	if len(desc) > 400 {
+		desc = desc[:400] + "..."
+	}
+	if !found {
+		if err == nil {
+			return fmt.Errorf("guard %v reported, no window scores below the limit %v [%s]", got, lim[0], desc)
+		}
+		if !isNotFound(err) {
+			return fmt.Errorf("error is not NotFound: %v [%s]", err, desc)
+		}
+		return nil
+	}
+	if err != nil {
+		return fmt.Errorf("no guard found, the model finds one at [%d,%d) [%s]", ws, we, desc)
+	}
+	if len(got) != 2 || got[0] != ws || got[1] != we {
+		return fmt.Errorf("guard %v, the model finds [%d,%d) [%s]", got, ws, we, desc)
+	}
+	return nil
+}
+
 type table struct {
 	name string
 	rows [][]int
@@ -590,6 +764,8 @@ func TestCheck(t *testing.T) {
 		c.Register("variance", checkVariance)
 		c.Register("best", checkBest)
 		c.Register("c128start", checkStart)
+		c.Register("digitrow", checkDigitRow)
+		c.Register("itfguard", checkGuard)
 	}, func(c *hx.Ctx) {
 		// (1) RecordPattern forward / reverse, rapid rows
 		rprop := func(rev bool, sub string) func(t *rapid.T) {
@@ -797,6 +973,81 @@ func TestCheck(t *testing.T) {
 			}
 		}
 		c.SetExhaustive("best_match_small_exhaustive", true)
+		// (7) ITF guard search: junk, then a start / end guard with ink spread up to and beyond the limit
+		c.Rapid("itf_guard_search", c.N(3000, 50000), func(t *rapid.T) {
+			pat := rapid.SampledFrom([][]int{{1, 1, 1, 1}, {1, 1, 2}, {1, 1, 3}}).Draw(t, "pattern")
+			var sb strings.Builder
+			col := byte('0')
+			put := func(n int) {
+				for i := 0; i < n; i++ {
+					sb.WriteByte(col)
+				}
+				col ^= 1
+			}
+			put(rapid.IntRange(1, 10).Draw(t, "lead"))
+			k := rapid.IntRange(1, 12).Draw(t, "scale")
+			for sgm, nseg := 0, rapid.IntRange(1, 3).Draw(t, "segments"); sgm < nseg; sgm++ {
+				if rapid.Bool().Draw(t, "junk") {
+					for i, n := 0, 2*rapid.IntRange(0, 3).Draw(t, "njunk"); i < n; i++ {
+						put(rapid.IntRange(1, 3*k).Draw(t, "junkrun"))
+					}
+				}
+				if col == '0' {
+					put(rapid.IntRange(1, 2*k).Draw(t, "gap"))
+				}
+				// uniform ink spread: bars gain, spaces lose
+				spread := rapid.IntRange(-k/2, k/2+1).Draw(t, "spread")
+				for i, p := range pat {
+					n := p * k
+					if i%2 == 0 {
+						n += spread
+					} else {
+						n -= spread
+					}
+					if n < 1 {
+						n = 1
+					}
+					put(n)
+				}
+			}
+			for i, n := 0, rapid.IntRange(1, 4).Draw(t, "tail"); i < n; i++ {
+				put(rapid.IntRange(1, 2*k).Draw(t, "tl"))
+			}
+			cs := GuardCase{Row: sb.String(), Pattern: pat}
+			c.Note("itf_guard_search", fmt.Sprintf("pattern_len=%d", len(pat)), true, hx.HashS("itfg", cs.Row, fmt.Sprint(pat)), func() any { return cs })
+			if err := c.Eval("itfguard", cs); err != nil {
+				t.Fatalf("%v", err)
+			}
+		})
+		// (6) whole EAN symbols with one distorted digit
+		c.Rapid("upcean_distorted_digit_rows", c.N(2500, 40000), func(t *rapid.T) {
+			sym := rapid.SampledFrom([]string{"EAN13", "EAN13", "EAN8"}).Draw(t, "sym")
+			n := 12
+			if sym == "EAN8" {
+				n = 7
+			}
+			rng := hx.NewRng(rapid.Uint64().Draw(t, "number"))
+			d := make([]byte, n)
+			for i := range d {
+				d[i] = byte('0' + rng.Intn(10))
+			}
+			body := string(d)
+			full := body + string(rune('0'+onedref.CheckDigit(body)))
+			k := rapid.IntRange(2, 6).Draw(t, "scale")
+			cs := DigitRow{Sym: sym, Digits: full, Scale: k, Pos: rapid.IntRange(0, map[string]int{"EAN13": 11, "EAN8": 7}[sym]).Draw(t, "pos")}
+			for j := range cs.Shift {
+				cs.Shift[j] = rapid.IntRange(-k, k).Draw(t, "shift")
+			}
+			half := "left"
+			if (sym == "EAN13" && cs.Pos >= 6) || (sym == "EAN8" && cs.Pos >= 4) {
+				half = "right"
+			}
+			nt := cs.Shift != [3]int{}
+			c.Note("upcean_distorted_digit_rows", "sym="+sym+";half="+half, nt, hx.HashS("drow", fmt.Sprint(cs)), func() any { return cs })
+			if err := c.Eval("digitrow", cs); err != nil {
+				t.Fatalf("%v", err)
+			}
+		})
 		// (5) Code 128 start search: rows with junk, start-like windows without a quiet zone, distorted starts
 		c.Rapid("code128_start_search", c.N(3000, 50000), func(t *rapid.T) {
 			pt := oned.VerifPatternTables()["code128"]
